@@ -347,6 +347,28 @@ def h_alias_ops(env, N, which, r=0):
             for j in range(3):
                 ge, pe = ref.ref_rotate(gs[1], ps[1], gs[j], ps[j])
                 env.goal('row%d' % j, b_and(arr_eq(lst.gs[j], ge), eq(lst.ps[j], pe)))
+    elif which in ('rotate_result_of_inverse', 'rotate_result_of_compose', 'rotate_result_of_to_map'):
+        # objects handed out by queries are ordinary objects: an in-place rotation of the returned map really changes it
+        # (whatever memory layout the query left it in), and leaves the object it was derived from alone
+        from .c04 import family_map, S_
+        mg, mp, ok = family_map(env, 'map', N, 'valid' if N == 1 else 'rotation')
+        env.assume(ok, 'map valid')
+        m = M.st.CliffordMap(S_(env, mg), S_(env, mp))
+        made = env.run({'rotate_result_of_inverse': lambda: m.inverse(), 'rotate_result_of_compose': lambda: m.compose(m),
+                        'rotate_result_of_to_map': lambda: m.to_state().to_map()}[which])
+        env.goal('query_no_exception', b_not(made.raised))
+        if made.value is not None:
+            out = made.value
+            g0, p0 = snapshot(out.gs), snapshot(out.ps)
+            rows = [oarr(g0[k * 2 * N:(k + 1) * 2 * N]) for k in range(2 * N)]
+            gg = env.bits('gen', (2 * N,))
+            pg = env.signs('gen_sign', (1,))[0]
+            res = env.run(lambda: out.rotate_by(M.pa.Pauli(gg.copy(), pg)))
+            env.goal('no_exception', b_not(res.raised))
+            for k in range(2 * N):
+                ge, pe = ref.ref_rotate(gg, pg, rows[k], p0[k])
+                env.goal('row%d' % k, b_and(arr_eq(out.gs[k], ge), eq(out.ps[k], pe)))
+            env.goal('source_map_unchanged', b_and(arr_eq(m.gs, mg), arr_eq(m.ps, mp)))
     elif which == 'measure_own_stabilizers':
         gs, ps = sym_state(env, N)
         state = mk_state(M, env, gs, ps, r)
@@ -478,6 +500,9 @@ def jobs(tier):
             J.append(dict(harness=('c17', 'h_query'), params=dict(N=N, name=name), timeout_s=600, cost=10, max_paths=4000))
     for name in ('entropy_mask_most_pure', 'entropy_mask_most', 'entropy_index_array'):
         J.append(dict(harness=('c17', 'h_query'), params=dict(N=3, name=name), timeout_s=600, cost=30, max_paths=4000))
+    for N in (1, 2):
+        for which in ('rotate_result_of_inverse', 'rotate_result_of_compose', 'rotate_result_of_to_map'):
+            J.append(dict(harness=('c17', 'h_alias_ops'), params=dict(N=N, which=which), timeout_s=300, cost=10))
     for N in (1, 2):
         J.append(dict(harness=('c17', 'h_alias_ops'), params=dict(N=N, which='rotate_by_own_row')))
         for r in range(N + 1):
